@@ -64,6 +64,7 @@ ALPHA = [
     {"op": "delete", "ids": ["g1", "exon_1"], "form": "list", "backup": True},
     {"op": "addrel", "p": "g1", "c": "e1", "l": 2, "retype": False},
     {"op": "addrel", "p": "m1", "c": "e1", "l": 3, "retype": True},
+    {"op": "addrel", "p": "m1", "c": "e1", "l": 1, "retype": True},      # the relation exists from the start: refused, nothing may stick
     {"op": "reopen"},
 ]
 
@@ -149,7 +150,7 @@ def gen_cases(rng, tier):
         cases.append({"ops": [gen_op(rng) for _ in range(rng.choice([2, 3, 4, 6, 8]))]})
     # databases that start without any autoincrement counter: the counters first appear during update()
     for n in range(1, 3 if tier == "quick" else 4):
-        for seq in itertools.product([0, 1, 2, 4, 8, 9, 13], repeat=n):
+        for seq in itertools.product([0, 1, 2, 4, 8, 9, 14], repeat=n):
             cases.append({"init": "named", "ops": [ALPHA[i] for i in seq]})
     for _ in range(nr // 4):
         cases.append({"init": "named", "ops": [gen_op(rng) for _ in range(rng.choice([2, 3, 4, 6]))]})
@@ -297,8 +298,10 @@ def run_impl(c):
                     data = objs if o["fail_at"] is None or o["fail_at"] > len(objs) else failing_source(objs, o["fail_at"])
                     if o.get("reads"):
                         data = reading_source(db, data)
-                    db.update(data, make_backup=o["backup"], merge_strategy=o["strategy"], checklines=o["checklines"],
-                              verbose=False)
+                    # 'error' is the default strategy: rely on the default, so that nothing an earlier call was given can
+                    # linger as a default of this one
+                    kw = {} if o["strategy"] == "error" else {"merge_strategy": o["strategy"]}
+                    db.update(data, make_backup=o["backup"], checklines=o["checklines"], verbose=False, **kw)
                 elif o["op"] == "delete":
                     if o["form"] == "str":
                         arg = o["ids"][0]
@@ -322,11 +325,7 @@ def run_impl(c):
                     db.conn.close()
                     db = gffutils.FeatureDB(dbfn)
             except Exception as ex:
-                res = ["err", L.err_class(ex)]
-                try:
-                    db.conn.rollback()
-                except Exception:
-                    pass
+                res = ["err", L.err_class(ex)]      # (no rollback here: a caller who catches the error just carries on)
                 del ex
             gc.collect()
             bak = dump_file(dbfn + ".bak") if os.path.exists(dbfn + ".bak") else None
